@@ -608,7 +608,7 @@ const DEEP: &[(&str, &[usize])] = &[
     ("subquery-nest", &[5, 20, 48]),
     // (nested EXISTS / derived tables re-evaluate the inner query per outer row: the cost is
     // exponential in the depth, so the depths stay small — bounded time is not part of C24)
-    ("exists-nest", &[3, 6]),
+    ("exists-nest", &[3]),
     ("in-subquery-nest", &[5, 20, 48]),
     ("derived-nest", &[3, 6, 10]),
     ("cte-nest", &[5, 20, 48]),
@@ -621,7 +621,7 @@ const DEEP: &[(&str, &[usize])] = &[
     ("case-whens", &[1000, 20_000]),
     ("coalesce-args", &[1000, 50_000]),
     ("create-columns", &[1000, 10_000]),
-    ("like-percent", &[3, 6]),
+    ("like-percent", &[3]),
 ];
 
 fn deep_sql(fam: &str, n: usize) -> Vec<String> {
